@@ -401,3 +401,31 @@ pub fn write_parts<W: std::io::Write>(w: &mut W, data: &[u8], parts: &[usize], f
 pub fn install_quiet_panic_hook() {
     std::panic::set_hook(Box::new(|_| {}));
 }
+
+/// A valid LZMA2 stream whose single LZMA chunk has the MAXIMAL compressed size (size field 0xFFFF = 65536
+/// bytes; no encoder in this crate or in liblzma emits it, the format allows it): the chunk body is a raw LZMA
+/// stream (no end marker) of incompressible data whose length is searched so that the range coder emits
+/// exactly 65536 bytes.  Returns (stream, data).
+#[allow(dead_code)]
+pub fn lzma2_max_compressed_chunk(seed: u64) -> Option<(Vec<u8>, Vec<u8>)> {
+    use lzma_rust2::{EncodeMode, LZMAOptions, LZMAWriter, MFType};
+    let mut rng = Rng::new(seed ^ 0xC0FFEE);
+    let all = rng.bytes(66_000);
+    let o = LZMAOptions::new(1 << 16, 3, 0, 2, EncodeMode::Fast, 32, MFType::HC4, 4);
+    let props = (2 * 5 + 0) * 9 + 3u8;
+    for len in (64_000..65_536).rev() {
+        let mut w = LZMAWriter::new_no_header(Vec::new(), &o, false).ok()?;
+        w.write_all(&all[..len]).ok()?;
+        let body = w.finish().ok()?;
+        if body.len() == 65_536 {
+            let mut s = vec![0xE0 | (((len - 1) >> 16) as u8), ((len - 1) >> 8) as u8, (len - 1) as u8, 0xFF, 0xFF, props];
+            s.extend(body);
+            s.push(0);
+            return Some((s, all[..len].to_vec()));
+        }
+        if body.len() < 65_000 {
+            break;
+        }
+    }
+    None
+}
